@@ -326,6 +326,10 @@ func c06Mutate(t *rapid.T, s string) string {
 
 func c06Gen(t *rapid.T) c06Case {
 	cfg := locCfg{L: 20, Hot: []int{0, 1, 5, 6, 7, 19, 20}, MaxDepth: 3, MaxParts: 5, Ambig: true, Sites: true, MaxSpan: 6}
+	if genLarge {
+		L := drawLen(t, 20, 20, "L")
+		cfg = locCfg{L: L, Hot: []int{0, 1, L / 2, L/2 + 1, L - 1, L}, MaxDepth: 3, MaxParts: 14, Ambig: true, Sites: true}
+	}
 	switch rapid.IntRange(0, 2).Draw(t, "mode") {
 	case 0:
 		raw := cfg.node(t, 3)
@@ -337,7 +341,7 @@ func c06Gen(t *rapid.T) c06Case {
 		}
 		return c06Case{Mode: "string", Text: s}
 	default:
-		n := rapid.IntRange(1, 5).Draw(t, "n")
+		n := drawCount(t, 1, 5, 14, "n")
 		parts := make([]Loc, n)
 		for i := range parts {
 			parts[i] = cfg.node(t, 2)
@@ -350,6 +354,10 @@ func TestC06(t *testing.T) {
 	st := newStats("C06")
 	defer st.flush()
 	rapidPart(t, c06Prop, st, "rapid", pick(60000, 500000), c06Gen)
+	if t.Failed() {
+		return
+	}
+	rapidLargePart(t, c06Prop, st, pick(3000, 40000), c06Gen)
 	if t.Failed() {
 		return
 	}
